@@ -110,7 +110,7 @@ def eval_case(env, z, what, group):
 
 def run(ctx):
     ctx.rule = ("exhaustive: Z in [-1,122] x {KA,KB,LA,LB, 7 IUPAC doublets, KO, KP} for LineEnergy and {KA,KB,LA} for RadRate, plus the "
-                "39 Siegbahn aliases against the IUPAC table; members decided from names, member values from the public single-line "
+                "39 Siegbahn aliases against the IUPAC table; every composed line directly after every other composed line of the same and the neighbouring elements; members decided from names, member values from the public single-line "
                 "accessors; tolerance 1e-13 and result within [min,max] of member energies. non-trivial = group with >=2 members of "
                 "different energy (energies) / available rate (rates); distinct by (Z, group)")
     ctx.exhaustive = True
@@ -141,6 +141,29 @@ def run(ctx):
                     kind = "value" if exp is not None else "noerror"
                     st.violation("%s:%s:%s" % (kind, what, g), case, expected=exp if exp is not None else "error and 0.0",
                                  got=dict(value=got, error=err))
+    # every composed line directly after every other composed line of the same and of the neighbouring elements: the answers judged above,
+    # bit for bit (a remembered "last composed line" keyed by some packing of element and line meets every pair of keys here)
+    saved, env.L._shadow = env.L._shadow, None
+    ref = {}
+    for z in range(-1, 123):
+        for g in groups_e:
+            ref[(z, g)] = env.L.call("LineEnergy", z, env.line[g])
+    same = lambda a, b: a == b or (a != a and b != b)
+    bad = False
+    for z in range(0, 122):
+        for dz in (-1, 0, 1):
+            for g1 in groups_e:
+                for g2 in groups_e:
+                    env.L.call("LineEnergy", z, env.line[g1])
+                    v, e = env.L.call("LineEnergy", z + dz, env.line[g2])
+                    st.ev()
+                    r = ref[(z + dz, g2)]
+                    if not bad and (not same(v, r[0]) or (e is None) != (r[1] is None)):
+                        st.violation("order-dependence:LineEnergy", dict(fn="LineEnergy", args=[z + dz, env.line[g2]], previous_call=["LineEnergy", z, env.line[g1]],
+                                                                        groups=[g1, g2]), dict(value=r[0], error=r[1] is not None), dict(value=v, error=e))
+                        bad = True
+    st.cls("composed_pairs", 122 * 3 * len(groups_e) ** 2)
+    env.L._shadow = saved
     env.L.shadow_check(st)
     ctx.assumptions = ["member energies/rates of single lines are correct (C01)", "CS_FluorLine weights for L-beta are correct (C09)",
                        "the RadRate of LB_LINE is not specified by the property and is not judged"]
